@@ -39,6 +39,6 @@ def main():
     chk.assumptions += ["justification classes are computed by an independent dense oracle on the internal (scaled, slack-embedded) "
                         "point reconstructed from the user's callbacks, tolerances opt_tol / local_infeas_tol with 1e-9 / 1e-6 relative slack",
                         "virtual clock: integer readings, so deadline comparisons are exact"]
-    chk.replay_behaviours(num=250 if not chk.thorough else 2000)
+    chk.replay_behaviours(num=500 if not chk.thorough else 6000)
     return chk.finish(rule="MC: every limit value x deadline position x outcome sequence; TV: infeasible and unbounded families with "
                            "iteration limits 0..12 and virtual deadlines")
